@@ -55,6 +55,9 @@ struct Options
   bool timeoutsOnlyWhenIdle = true; // Random: timed waits time out / sleeps return only when nothing else is enabled
   int timeoutPermille = 0;          // Random: else probability (per decision) to prefer a timed-out waiter
   bool pointAfterUnlock = false;    // extra schedule point right after every mutex unlock (see sched.cpp)
+  bool earliestDeadlineFirst = false; // Random, idle system: run the sleeper / timed waiter / spinner that is due first
+                                      // (discrete-event simulation) instead of a uniformly random one; overlapping sleeps
+                                      // then do not add up.  Off = time may jump by a whole sleep while others lag.
 };
 
 struct Result
@@ -80,6 +83,8 @@ const char *selfName();
 // virtual time (registered threads see clock_gettime frozen at reset() plus this advance; it moves only when a
 // timed wait times out or a registered thread sleeps)
 long long virtualAdvanceNs();
+// number of time-outs/sleeps granted so far while another thread could run or an earlier deadline was pending
+long unfairJumps();
 void advanceVirtualNs(long long ns);
 // name the next thread the calling (registered) thread creates; threads created by the code under test without a
 // name are called w1, w2, ... in creation order
